@@ -48,9 +48,15 @@ def share_encoder_parameters(
     :param others: The other networks whose encoder parameters will be pinned to the policy.
     :type others: EvolvableNetwork
     """
-    assert isinstance(policy, EvolvableNetwork), "Policy must be an EvolvableNetwork"
+    # NOTE: `isinstance()` checks against a runtime-checkable Protocol don't see the
+    # submodules of a `torch.nn.Module` from Python 3.12 onwards (they are looked up
+    # statically), so we check for the encoder and head explicitly
+    def _is_evolvable_network(net: Any) -> bool:
+        return hasattr(net, "encoder") and hasattr(net, "head_net")
+
+    assert _is_evolvable_network(policy), "Policy must be an EvolvableNetwork"
     assert all(
-        isinstance(other, EvolvableNetwork) for other in others
+        _is_evolvable_network(other) for other in others
     ), "All others must be EvolvableNetwork"
 
     # detaching encoder parameters from computation graph reduces
